@@ -175,6 +175,14 @@ func materialise(v goval) (val any, hasIdentity bool) {
 			return [2]int{1, 2}, false
 		case "mapint":
 			return map[int]string{1: "a"}, false
+		case "mapintempty":
+			return map[int]string{}, false
+		case "mapintnil":
+			return map[int]string(nil), false
+		case "chan-nil":
+			return (chan int)(nil), false
+		case "func-nil":
+			return (func())(nil), false
 		case "uintptr":
 			return uintptr(7), false
 		}
